@@ -354,7 +354,8 @@ func driverMain(prop, tier string) int {
 				}
 				if !confirmed {
 					// neither the case alone nor the pair reproduces it: run the same shard once
-					// more; a shard that dies twice in the same way with a Go panic is no
+					// more; a shard that dies twice in the same way (Go panic, memory fault, or the watchdog's
+					// "no case completed") is no
 					// accident of the environment (memory, signals) and is reported, because a
 					// check whose workers die has explored nothing
 					first := firstPanicLine(errb.String())
@@ -363,7 +364,7 @@ func driverMain(prop, tier string) int {
 					var out2, errb2 bytes.Buffer
 					cmd2.Stdout = &out2
 					cmd2.Stderr = &errb2
-					if err2 := cmd2.Run(); err2 != nil && (strings.HasPrefix(first, "panic:") || strings.Contains(first, "SIGSEGV") || strings.HasPrefix(first, "unexpected fault")) && firstPanicLine(errb2.String()) == first {
+					if err2 := cmd2.Run(); err2 != nil && (strings.HasPrefix(first, "panic:") || strings.Contains(first, "SIGSEGV") || strings.HasPrefix(first, "unexpected fault") || strings.HasPrefix(first, "fatal error: HANG")) && firstPanicLine(errb2.String()) == first {
 						v.What = fmt.Sprintf("worker %d of %d died twice in a row in the same way while exploring its share of the space (the case in the case file alone does not reproduce it): %s\n%s", i, n, first, tail)
 						v.Fingerprint = prop + "/shard-crash/" + first
 						confirmed = true
